@@ -1074,6 +1074,11 @@ func ruleC18Selection(c *Ctx) {
 				why = append(why, "element "+k+" of the result is not set")
 			case !onlyArg(t, k):
 				why = append(why, "element "+k+" of the result is "+t.String()+": it does not depend on args["+k+"] alone")
+			case t.Contains(func(x *Term) bool {
+				a, ok := callArgs(x, "fmt.Sprintf")
+				return ok && len(a) >= 1 && a[0].Name == `"%v"`
+			}):
+				why = append(why, "element "+k+" of the result is the %v text of args["+k+"]: an epoch bound such as 1700000000000 comes back as 1.7e+12, neither the bound nor its decimal text")
 			}
 		}
 		if len(elems) != 2 {
